@@ -190,9 +190,16 @@ class DecoderModel:
         val_op = t.args[2]
         e = strip(an.operand_expr(val_op, bb, len(an.fn.blocks[bb].stmts)))
         # peel byte-preserving conversions
-        for _ in range(4):
+        for _ in range(6):
             if e.k == "call" and e.a[0].name in ("from", "into") and e.a[1]:
                 e = strip(e.a[1][0])
+                continue
+            # value handed back through `?` / Ok(..) by an (inlined) helper
+            p = ok_payload(e)
+            if p is not None:
+                e = strip(p)
+                continue
+            break
         region = self.leaf_region(leaf)
         alts = e.a[0] if e.k == "phi" else [e]
         out = []
